@@ -906,6 +906,18 @@ class Trait:
         self.name, self.methods, self.int_result = name, methods, int_result
         self.generic = None     # concrete type the trait-level parameter T is instantiated with
         self.supers = ""        # e.g. ": Send + Sync"
+        self.orig_n = None      # set on reduced copies (structural shrinking): the original method count
+        self.orig_kinds = None  # ... and the original list of container kinds (case fields index into both)
+
+    def without(self, drop):
+        """a copy of this definition without the methods whose index is in `drop`; operation
+        selectors and container-kind indices of recorded cases keep their meaning"""
+        import copy
+        t = copy.copy(self)
+        t.orig_n = self.orig_n or len(self.methods)
+        t.orig_kinds = self.orig_kinds or self.kinds()
+        t.methods = [m for m in self.methods if m.idx not in drop]
+        return t
 
     def use(self):
         """the trait as named in bounds and impls"""
@@ -937,6 +949,8 @@ class Trait:
 
     def kinds(self):
         """admissible container kinds (DESIGN.md section 2)"""
+        if self.orig_kinds:
+            return list(self.orig_kinds)
         k = ["box", "cbox", "box_arcctx", "box_cntctx"]
         if not self.has_own():
             k += ["mut", "mut_arcctx"]
@@ -946,6 +960,44 @@ class Trait:
 
     def describe(self):
         return {"trait": self.name + (f"<T = {self.generic}>" if self.generic else "") + self.supers, "int_result": self.int_result, "methods": [m.describe() for m in self.methods], "containers": self.kinds()}
+
+    def features(self):
+        """grammar features of this definition (for the coverage histogram in the evidence)"""
+        f = set()
+        if self.generic:
+            f.add("trait-level-generic")
+        if self.supers:
+            f.add("supertrait-send-sync")
+        if self.has_rettmp():
+            f.add("borrowed-wrapped-return")
+        if self.int_result:
+            f.add("trait-level-int_result")
+        for m in self.methods:
+            f.add("recv:" + m.recv)
+            if getattr(m.ret, "self_return", False):
+                f.add("self-return")
+            if getattr(m, "skip", False):
+                f.add("skip_func")
+            if getattr(m, "vtbl_only", False):
+                f.add("vtbl_only")
+            if m.default_body:
+                f.add("provided-overridden" if m.overridden else "provided-not-overridden")
+                if m.where_sized:
+                    f.add("provided-where-sized")
+            if m.extern_c:
+                f.add("extern-c-method")
+            if getattr(m.ret, "alias", None):
+                f.add("int_result-alias")
+            if getattr(m.ret, "int_result", None) is True:
+                f.add("int_result-return")
+                if getattr(m.ret, "t", None) == "()":
+                    f.add("int_result-unit-ok")
+            if getattr(m.ret, "wrapped", False) and hasattr(m.ret, "assoc"):
+                f.add("wrapped-assoc-return")
+            for a in m.args:
+                f.add("arg:" + type(a).__name__[1:].lower())
+            f.add("ret:" + type(m.ret).__name__[1:].lower())
+        return f
 
 
 def gen_trait(rng, name, prefix, max_methods=5, allow_child=True, tindex=0):
